@@ -178,23 +178,25 @@ def c08_exec(plan):
                 i = pick(u[0])
                 if i is None:
                     raise _Skip()
-                ev["a"] = {"h": i, "size": s["size"]}
-                H[i].size = s["size"]
+                nsz = s["size"] if s.get("rel") is None else max(0, H[i].size + s["rel"])
+                ev["a"] = {"h": i, "size": nsz}
+                H[i].size = nsz
             elif op in ("zeroextend", "signextend", "extend"):
                 i = pick(u[0], (lambda o: o.size > 0) if op != "zeroextend" else None)
                 if i is None:
                     raise _Skip()
-                ev["a"] = {"h": i, "size": s["size"]}
+                nsz = s["size"] if s.get("rel") is None else max(0, H[i].size + s["rel"])
+                ev["a"] = {"h": i, "size": nsz}
                 if op == "zeroextend":
-                    r = H[i].zeroextend(s["size"])
+                    r = H[i].zeroextend(nsz)
                     sign = False
                 elif op == "signextend":
-                    r = H[i].signextend(s["size"])
+                    r = H[i].signextend(nsz)
                     sign = True
                 else:
                     sign = bool(u[1] & 1)
-                    r = H[i].extend(sign, s["size"])
-                ev["a"] = {"h": i, "size": s["size"], "sign": sign, "dst": s.get("dst"), "same": r is H[i]}
+                    r = H[i].extend(sign, nsz)
+                ev["a"] = {"h": i, "size": nsz, "sign": sign, "dst": s.get("dst"), "same": r is H[i]}
                 if s.get("dst") is not None:
                     H[s["dst"]] = r
                 res = r
@@ -381,10 +383,10 @@ class C08(Machine):
             elif r < 0.40:
                 pb.step(c, op="setlist", u=u, rhs={"kind": rng.choice(["list", "bits", "int", "handle"]), "seed": rng.getrandbits(8)})
             elif r < 0.45:
-                pb.step(c, op="setsize", u=u, size=rng.choice(WIDTHS))
+                pb.step(c, op="setsize", u=u, size=rng.choice(WIDTHS), rel=rng.choice([None, None, -1, 0, 1, 1, 8, -8]))
             elif r < 0.52:
                 pb.step(c, op=rng.choice(["zeroextend", "signextend", "extend"]), u=u, size=rng.choice(WIDTHS),
-                        dst=dst if rng.random() < 0.6 else None)
+                        rel=rng.choice([None, None, -1, 0, 1, 1, 8]), dst=dst if rng.random() < 0.6 else None)
             elif r < 0.58:
                 o = rng.choice(BINOPS)
                 if rng.random() < 0.6:
